@@ -1,4 +1,6 @@
 import Frp.Lemmas.Sess
+import Frp.Model.RandID
+import Frp.Gen.RandFacts
 /-
   C12 — Sessions own their proxies; names are unique; re-login replaces cleanly.
 
@@ -10,8 +12,17 @@ import Frp.Lemmas.Sess
 
   Modelling assumption stated in the model (`step … (.login n r fresh)`): the id generator is abstract
   — a generated id is one no session has, and an id is not presented by another login before it was
-  disclosed by the LoginResp.  That `util.RandID` reads crypto/rand and returns 16 hex digits is a
-  harness fact check (engine `sess`, op `randid`), not a theorem.
+  disclosed by the LoginResp.  Section 7 says what that assumption rests on:
+    * `randid_code_shape` — the regenerated facts `Frp.Gen.RandFacts` (translate/gen_randfacts.go): RandIDWithLen
+      makes its buffer itself, fills ALL of it with one crypto/rand.Read, formats that buffer with "%x" and
+      depends on no package-level state;
+    * for code of that shape (`Frp.RandID`, Model/RandID.lean) every one of any number of concurrent calls
+      returns the 16-hex id of a block that this very call read, and equal ids mean equal 8-byte draws;
+    * `freshOK` / `idsOK` — the assumption itself as an executable predicate; the engine evaluates it on
+      the ids the real Service hands out (sequential gated logins, concurrent bursts of fresh logins) and
+      on the ids many concurrent callers of the real util.RandID get.
+  That crypto/rand's bytes cannot be guessed and that N random 64-bit draws are pairwise different
+  (probability of a collision ≤ N²/2⁶⁵) is an assumption, not a theorem.
 -/
 namespace Frp
 namespace C12
@@ -420,6 +431,110 @@ theorem fresh_add_finds_slot_empty {S S' : St} {n : Nat} (hR : Reachable S)
   have := hold hf
   exact ⟨this, by simp [this]⟩
 
+/-! #### what the freshness assumption rests on: the shape of util.RandID -/
+
+/-- the source has the private-buffer shape: the buffer handed to Sprintf is made inside the call
+    (`b := make([]byte, …)`, never re-assigned), one `crypto/rand.Read(b)` fills it, nothing else is
+    called, no goroutine / closure, no package-level identifier of package util is mentioned -/
+def randidCodePrivate : Bool :=
+  Gen.RandFacts.bufIsLocalMake && Gen.RandFacts.readFillsBuf && Gen.RandFacts.readPkg == "crypto/rand" &&
+  Gen.RandFacts.calls == ["make", "rand.Read", "fmt.Sprintf"] &&
+  Gen.RandFacts.freeIdents.isEmpty && Gen.RandFacts.goStmts.isEmpty
+
+/-- … and is, statement by statement, the function Model/RandID.lean mirrors -/
+def randidCodeShape : Bool :=
+  randidCodePrivate &&
+  Gen.RandFacts.randIDBody == ["return RandIDWithLen(16)"] && Gen.RandFacts.randIDLen == 16 &&
+  Gen.RandFacts.stmts ==
+    ["if idLen <= 0 { return \"\", nil }", "b := make([]byte, idLen/2+1)", "_, err = rand.Read(b)",
+     "if err != nil { return }", "id = fmt.Sprintf(\"%x\", b)", "return id[:idLen], nil"] &&
+  Gen.RandFacts.bufVar == "b" && Gen.RandFacts.bufLenDiv == 2 && Gen.RandFacts.bufLenAdd == 1 &&
+  Gen.RandFacts.formatVerb == "%x" && Gen.RandFacts.resultExpr == "id[:idLen]"
+
+/-- tie to the source (regenerated on every run by translate/gen_randfacts.go) -/
+theorem randid_code_shape : randidCodeShape = true := by decide +kernel
+
+theorem randid_code_private : randidCodePrivate = true := by decide +kernel
+
+/-- **concurrent callers**: under every interleaving of any number of RandID calls in flight, a call
+    returns the id of a block that this very call read from crypto/rand (never bytes another call drew) -/
+theorem randid_concurrent_calls_return_own_draws (es : List RandID.Ev) (i : Nat) (s : Str)
+    (h : (RandID.prun randidCodePrivate Gen.RandFacts.randIDLen {} es).out.get i = some s) :
+    ∃ b, RandID.Ev.read i b ∈ es ∧ s = RandID.idOf 16 b := by
+  have e : Gen.RandFacts.randIDLen = 16 := by decide +kernel
+  rw [randid_code_private, e] at h
+  exact RandID.private_formats_own_draw 16 es i s h
+
+/-- the id is 16 lower-case hex characters -/
+theorem randid_is_hex16 (b : List Nat) (h : b.length = RandID.bufLen Gen.RandFacts.randIDLen) :
+    RandID.isHex16 (RandID.idOf 16 b) = true := by
+  have e : Gen.RandFacts.randIDLen = 16 := by decide +kernel
+  rw [e] at h
+  exact RandID.idOf_isHex16 b h
+
+/-- two calls return the same id only if crypto/rand delivered the same first 8 bytes (64 bits) to both -/
+theorem randid_same_id_same_draw (a b : List Nat) (ha : ∀ x ∈ a, x < 256) (hb : ∀ x ∈ b, x < 256)
+    (h : RandID.idOf 16 a = RandID.idOf 16 b) : a.take 8 = b.take 8 :=
+  RandID.idOf_inj 8 a b ha hb h
+
+/-- non-vacuity of the shape condition: with a buffer that is a slice of shared storage two overlapping
+    calls return the SAME id although they drew different bytes -/
+theorem randid_shared_pool_witness :
+    let a := [1, 2, 3, 4, 5, 6, 7, 8, 9]
+    let b := [11, 12, 13, 14, 15, 16, 17, 18, 19]
+    let S := RandID.prun false 16 {} [.read 1 a, .read 2 b, .format 1, .format 2]
+    S.out.get 1 = S.out.get 2 ∧ S.out.get 1 = some (RandID.idOf 16 b) ∧ RandID.idOf 16 a ≠ RandID.idOf 16 b :=
+  RandID.shared_pool_witness
+
+/-! #### the freshness assumption as an executable predicate (evaluated on the implementation's ids) -/
+
+/-- the id handed to a login without run id is well-formed and none of the ids handed out before -/
+def freshOK (used : List Str) (id : Str) : Bool := RandID.isHex16 id && !used.contains id
+
+/-- a sequence of generated ids (newest first): each was fresh when it was generated -/
+def idsOK : List Str → Bool
+  | [] => true
+  | id :: rest => freshOK rest id && idsOK rest
+
+theorem idsOK_sound (ids : List Str) :
+    idsOK ids = true ↔ (∀ id ∈ ids, RandID.isHex16 id = true) ∧ ids.Nodup := by
+  induction ids with
+  | nil => simp [idsOK]
+  | cons id rest ih =>
+    simp only [idsOK, freshOK, Bool.and_eq_true, ih, List.mem_cons, List.nodup_cons, Bool.not_eq_true',
+      List.contains_eq_mem, decide_eq_false_iff_not, forall_eq_or_imp]
+    constructor
+    · rintro ⟨⟨a, b⟩, c, d⟩; exact ⟨⟨a, c⟩, b, d⟩
+    · rintro ⟨⟨a, c⟩, b, d⟩; exact ⟨⟨a, b⟩, c, d⟩
+
+/-- a batch of ids generated concurrently (a burst of fresh logins): pairwise different, well-formed and
+    none of the ids handed out before -/
+def burstOK (used ids : List Str) : Bool := idsOK ids && ids.all (fun id => freshOK used id)
+
+theorem burstOK_sound (used ids : List Str) (hu : idsOK used = true) (h : burstOK used ids = true) :
+    idsOK (ids ++ used) = true := by
+  simp only [burstOK, Bool.and_eq_true, List.all_eq_true] at h
+  obtain ⟨h1, h2⟩ := h
+  induction ids with
+  | nil => simpa using hu
+  | cons id rest ih =>
+    simp only [idsOK, Bool.and_eq_true] at h1
+    have hid := h2 id (by simp)
+    simp only [freshOK, Bool.and_eq_true, Bool.not_eq_true', List.contains_eq_mem, decide_eq_false_iff_not] at hid h1
+    simp only [List.cons_append, idsOK, freshOK, Bool.and_eq_true, Bool.not_eq_true', List.contains_eq_mem,
+      decide_eq_false_iff_not, List.mem_append, not_or]
+    exact ⟨⟨hid.1, h1.1.2, hid.2⟩, ih h1.2 (fun x hx => h2 x (by simp [hx]))⟩
+
+/-- the assumption is exactly the enabling condition of the model's fresh login: when the generated id
+    is none of the ids sessions have, the label is enabled — the theorems above speak about it -/
+theorem fresh_login_enabled {S : St} {n r : Nat} (hn : (S.s n).phase = .none)
+    (hf : ∀ m ∈ S.ids, (S.s m).rid ≠ r) : (step S (.login n r true)).isSome = true := by
+  simp only [step]
+  have : ¬ (S.ids.any (fun m => (S.s m).rid == r) = true) := by
+    simp only [List.any_eq_true, beq_iff_eq, not_exists, not_and]
+    exact hf
+  simp [hn, this]
+
 /-! ### the executable predicate the driver evaluates on the IMPLEMENTATION's dumped tables -/
 
 /-- one observation: the model's session bookkeeping after a label (phases, stamps, `old`; its tables
@@ -433,10 +548,37 @@ structure Obs where
   prevNames : List (Nat × Nat)       -- pxys before: name ↦ owning session
   run : List (Nat × Nat)
   names : List (Nat × Nat)
+  acked : List Nat := []             -- sessions whose client has RECEIVED the LoginResp (the implementation's own acks)
 
 def hasKey (l : List (Nat × Nat)) (k : Nat) : Bool := l.any (fun e => e.1 == k)
 
-def holdsOn (o : Obs) : Bool :=
+/-- `k` is an earlier session of `n`'s run id (the model's bookkeeping of the Adds, whose results are
+    compared with the implementation's label by label) -/
+def earlierOf (S : St) (n k : Nat) : Bool :=
+  (S.s n).phase.isAdded && (S.s k).phase.isAdded && (S.s k).rid == (S.s n).rid && (S.s k).stamp < (S.s n).stamp
+
+/-- an acknowledged session that still has something to tear down: its connection / pool (running,
+    dispDone) or proxies its worker has not closed yet.  (`drained` with nothing left to visit is torn
+    down in every respect the property names; only `close(doneCh)` is outstanding.) -/
+def pendingTeardown (x : Rec) : Bool :=
+  x.phase.live && !(decide (x.phase = .drained) && x.todo.isEmpty)
+
+/-- **ack(new) only after teardown(every earlier session of the run id)**, evaluated on the
+    implementation's own acknowledgements and its own name table (`ack_after_all_earlier`; chains of
+    simultaneous re-logins A → B → C included: C's ack while A is acknowledged and not torn down, or
+    while A still stands in the name table, is a violation — whatever B did) -/
+def ackOn (o : Obs) : Bool :=
+  o.acked.all (fun n => o.S.ids.all (fun k => !(earlierOf o.S n k && pendingTeardown (o.S.s k)))) &&
+  o.names.all (fun e => o.acked.all (fun n => !earlierOf o.S n e.2))
+
+def AckSpec (o : Obs) : Prop :=
+  (∀ n ∈ o.acked, ∀ k ∈ o.S.ids, earlierOf o.S n k = true → pendingTeardown (o.S.s k) = false) ∧
+  (∀ e ∈ o.names, ∀ n ∈ o.acked, earlierOf o.S n e.2 = false)
+
+theorem ackOn_sound (o : Obs) : ackOn o = true ↔ AckSpec o := by
+  simp only [ackOn, AckSpec, Bool.and_eq_true, List.all_eq_true, Bool.not_eq_true', Bool.and_eq_false_imp]
+
+def holdsOnBase (o : Obs) : Bool :=
   -- names belong to acknowledged, not yet torn down sessions
   o.names.all (fun e => (o.S.s e.2).phase.live) &&
   -- nobody is acknowledged while the session it replaced still stands in the name table
@@ -451,7 +593,9 @@ def holdsOn (o : Obs) : Bool :=
   o.prevRun.all (fun e => o.run.contains e || e.1 == o.actorRid) &&
   o.prevRun.all (fun e => !o.isDel || e.2 == o.actor || o.run.contains e)
 
-def Spec (o : Obs) : Prop :=
+def holdsOn (o : Obs) : Bool := holdsOnBase o && ackOn o
+
+def SpecBase (o : Obs) : Prop :=
   (∀ e ∈ o.names, (o.S.s e.2).phase.live = true) ∧
   (∀ e ∈ o.names, ∀ n ∈ o.S.ids, ¬((o.S.s n).phase.started = true ∧ (o.S.s n).old = some e.2)) ∧
   (∀ e ∈ o.run, (o.S.s e.2).phase.isAdded = true ∧ (o.S.s e.2).rid = e.1 ∧ (o.S.s e.2).deleted = false ∧
@@ -461,8 +605,10 @@ def Spec (o : Obs) : Prop :=
   (∀ e ∈ o.prevRun, e ∈ o.run ∨ e.1 = o.actorRid) ∧
   (∀ e ∈ o.prevRun, o.isDel = true → e.2 ≠ o.actor → e ∈ o.run)
 
-theorem holdsOn_sound (o : Obs) : holdsOn o = true ↔ Spec o := by
-  simp only [holdsOn, Spec, Bool.and_eq_true, List.all_eq_true, Bool.or_eq_true,
+def Spec (o : Obs) : Prop := SpecBase o ∧ AckSpec o
+
+theorem holdsOnBase_sound (o : Obs) : holdsOnBase o = true ↔ SpecBase o := by
+  simp only [holdsOnBase, SpecBase, Bool.and_eq_true, List.all_eq_true, Bool.or_eq_true,
     beq_iff_eq, decide_eq_true_eq, List.contains_iff_mem, Bool.and_eq_false_imp, Bool.not_eq_eq_eq_not,
     Bool.not_true]
   constructor
@@ -494,6 +640,29 @@ theorem holdsOn_sound (o : Obs) : holdsOn o = true ↔ Spec o := by
       have := h7 e he
       cases hd : o.isDel <;> simp_all
       by_cases hne : e.2 = o.actor <;> simp_all
+
+theorem holdsOn_sound (o : Obs) : holdsOn o = true ↔ Spec o := by
+  simp only [holdsOn, Spec, Bool.and_eq_true, holdsOnBase_sound, ackOn_sound]
+
+/-- the model satisfies the acknowledgement clause: on a reachable state, with the model's own started
+    sessions as the acknowledged ones and any name table entry of the model, `AckSpec` holds -/
+theorem model_ackSpec {S : St} (hR : Reachable S) (run names : List (Nat × Nat)) (acked : List Nat)
+    (ha : ∀ n ∈ acked, (S.s n).phase.started = true) (hn : ∀ e ∈ names, S.names.get e.1 = some e.2) :
+    AckSpec { S := S, actor := 0, actorRid := 0, isDel := false, prevRun := [], prevNames := [],
+              run := run, names := names, acked := acked } := by
+  refine ⟨?_, ?_⟩
+  · intro n hna k _ he
+    simp only [earlierOf, Bool.and_eq_true, beq_iff_eq, decide_eq_true_eq] at he
+    obtain ⟨⟨⟨_, hk⟩, hr⟩, hlt⟩ := he
+    have := (ack_after_all_earlier hR (ha n hna) hk hr hlt).1
+    simp [pendingTeardown, this, Phase.live]
+  · intro e he n hna
+    cases hE : earlierOf S n e.2 with
+    | false => rfl
+    | true =>
+      simp only [earlierOf, Bool.and_eq_true, beq_iff_eq, decide_eq_true_eq] at hE
+      obtain ⟨⟨⟨_, hk⟩, hr⟩, hlt⟩ := hE
+      exact absurd (hn e he) ((ack_after_all_earlier hR (ha n hna) hk hr hlt).2 e.1)
 
 /-! ### non-vacuity -/
 
